@@ -218,3 +218,49 @@ func VerifC06Race() {
 	verifReach("joined")
 	verifAssert(!(entered[0] && entered[1]), "C06: at no time do more than the configured queue size wait (two arrivals, one slot)")
 }
+
+// VerifC06ExpiryDuringCheck: the time-to-live of a waiting request ends while the background
+// processing holds that very request for its quota check (every interleaving of the TTL
+// watcher with one processing pass at synchronisation operations, bounded pre-emptions; the
+// quota admits or refuses). The request still gets exactly one verdict, in time, and is
+// allowed only if the quota admitted it.
+func VerifC06ExpiryDuringCheck() {
+	sec := int64(time.Second)
+	ttl := time.Duration(2 * sec)
+	verifSetNow(1_700_000_000 * sec)
+	p, q, h := c06New(2, ttl)
+	verifAdvance(1_000)
+	r := h.arrive(p, 1, 1, ttl)
+	verifAssert(r.queued, "the request waits (the quota is closed)")
+	if verifParam("quotaOpens", 0) == 1 { // a parameter, not an input: the recorded schedule must replay decision by decision
+		q.free = 1
+	}
+	verifSched(int(verifParam("preempt", 2)))
+	verifAdvanceLazy(int64(ttl) + 1_000_000) // the deadline passes: the watcher is woken but has not run yet
+	done := make(chan struct{})
+	go func() {
+		p.tryProcessQueueItems()
+		close(done)
+	}()
+	verifDrain()
+	<-done
+	verifSched(-1)
+	verifDrain()
+	verifReach("interleaved")
+	// later passes of the watcher and of the processing (sequential)
+	for k := 0; k < 2; k++ {
+		verifAdvance(sec)
+		verifDrain()
+		p.tryProcessQueueItems()
+		verifDrain()
+	}
+	h.mu.Lock()
+	defer h.mu.Unlock()
+	verifAssert(r.verdicts == 1, "C06: exactly one verdict per request, no later than its time-to-live plus one watcher pass (expiry during the quota check)")
+	if r.verdict == "allowed" {
+		verifReach("allowed")
+		verifAssert(r.granted, "C06: a request is allowed only when the attached quota admitted it")
+	} else {
+		verifReach("blocked")
+	}
+}
